@@ -41,7 +41,7 @@ func Run(r *mc.Run) {
 		runForks(r) // first: cheap, and independent of the exploration budget
 		runLongForks(r)
 		// inactivity slashing on, two extra senators that never propose: several validators are slashed in one block
-		chainx.Explore(r, h, []chainx.ParamCfg{inactCfg()}, []string{"c1:", "s1:", "c1:xfer", "c1:!dsign(s1)"}, 4, 0)
+		chainx.Explore(r, h, []chainx.ParamCfg{inactCfg()}, []string{"c1:", "s1:", "c1:xfer", "c1:!dsign(s1)", "c1:!dsign(s2)", "c1:!dsign(s3)"}, 3, 0)
 		// the builder's failure branches (ApplyTransaction error after a state change, nonce gaps behind it, two senders in one block)
 		chainx.Explore(r, h, []chainx.ParamCfg{noForced}, chainx.MenuBuilderPaths, 2, 1)
 		chainx.Explore(r, h, []chainx.ParamCfg{noForced}, chainx.MenuCode, 4, 0)
